@@ -68,19 +68,25 @@ def check(toks, resp, mode, build):
         return ("ok" if ok else "viol"), "nt_abssub." + spec[0], True, A.spec_text(spec, False)
     if op == "nt":
         sg = (a > 0) - (a < 0)
-        want = "T %d%d%d%d V %d %d V %d 0 V 0 0 V 1 0 -" % (a == 0, a == P10[p], a > 0, a < 0, abs(a), p, sg)
-        return ("ok" if resp.raw == want else "viol"), "nt", p > 0, want
+        want = "T %d%d%d%d V %d %d <signum %d> <zero> <one> -" % (a == 0, a == P10[p], a > 0, a < 0, abs(a), p, sg)
+        f = resp.raw.split(" ")
+        ok = (len(f) == 15 and f[0] == "T" and f[1] == "%d%d%d%d" % (a == 0, a == P10[p], a > 0, a < 0)
+              and f[2:5] == ["V", str(abs(a)), str(p)] and f[5] == "V" and f[8] == "V" and f[11] == "V" and f[14] == "-")
+        if ok:
+            # signum, zero() and one(): by value
+            ok = (value_eq(int(f[6]), int(f[7]), sg, 0) and int(f[9]) == 0 and value_eq(int(f[12]), int(f[13]), 1, 0)
+                  and max(int(f[7]), int(f[10]), int(f[13])) <= 18)
+        return ("ok" if ok else "viol"), "nt", p > 0, want
     t = P10[p]
     if op in ("neg", "negref"):
         want = "V %d %d" % (-a, p)
     elif op == "abs":
         want = "V %d %d" % (abs(a), p)
-    elif op == "floor":
-        want = "V %d 0" % (a // t)
-    elif op == "ceil":
-        want = "V %d 0" % (-((-a) // t))
-    elif op == "trunc":
-        want = "V %d 0" % tdiv(a, t)
+    elif op in ("floor", "ceil", "trunc"):
+        # "integral results": the value is fixed, the representation is not
+        v = a // t if op == "floor" else (-((-a) // t) if op == "ceil" else tdiv(a, t))
+        spec = ("value", v, 0, 18)
+        return ("ok" if A.matches(spec, resp, False) else "viol"), op, p > 0, A.spec_text(spec, False)
     elif op == "fract":
         want = "V %d %d" % (a - tdiv(a, t) * t, p)
     elif op == "magn":
